@@ -12,7 +12,8 @@ RULE = ('cases = (a) ResourceMatcher unit cases and (b) every selector-taking pr
         '(None / regex from a generated AST / list / integer incl. negative and out of range) x packages of 1-4 '
         'resources whose names are prefixes of one another or contain regex metacharacters; non-trivial = the '
         'selector selects a proper, non-empty subset or is rejected; distinct = distinct case digest'
-        '; round 4: every resource carries its own values; systematic non-adjacent selections for every selector-taking step')
+        '; round 4: every resource carries its own values; systematic non-adjacent selections for every selector-taking step'
+        '; round 7: the first selected resource systematically; every case also read after all resources were taken from the stream')
 TRUSTED = ['Coq 8.16.1 kernel + vm_compute', 'harness/p10.py printers (regex AST -> pattern text) and oracle',
            'Python re.fullmatch as the meaning of "fully matches" for the direct oracle; the Coq matcher is compared with it on every generated pattern',
            'gen_consts.py extraction of ResourceMatcher call-site arguments (ast)']
